@@ -141,3 +141,15 @@ PROPS["C06"] = dict(
     level_text="Sampled configurations with an exact per-object oracle; the evidence lists the (mode x layout x EncryptMetadata x password class) cells exercised.",
     level_note="Trusted base: pyref/crypto.py (FIPS-197 / RFC 6229 vectors, OpenSSL cross-check, qpdf fixtures), pyref/pdfgen.py. qpdf itself is not installed.",
 )
+
+PROPS["C23"] = dict(
+    title="Cryptographic building blocks match their reference definitions",
+    level="exploration",
+    technique="offline checker over logged (function, inputs, output) tuples: every output of the library's RC4, AES-CBC/ECB, Algorithms 1-10/13 and 2.B, and permission-bit functions is recomputed with an independent implementation (pyref.crypto: hashlib + OpenSSL libcrypto with a pure-Python FIPS-197 cross-check, anchored to RFC 6229 / FIPS-197 vectors and the qpdf fixtures); salted outputs are checked by extracting the salt; encrypt/decrypt round trips are asserted in-process",
+    stages=[rust(), py("pyref.checks.c23")],
+    rule="RC4 keys 1-32 bytes x data lengths {0,1,7,15,16,17,31,32,33,64,100,255,256,1000,4096,1 MiB}; AES-128/256 CBC (PKCS#7), raw CBC, ECB over the same lengths; R2/R3/R4 and R5/R6 handlers over a password pool {empty, ASCII, exactly 32, >32, >127 bytes, Latin-1, PDFDoc-only, BMP, CJK, astral, strings that SASLprep changes} x file ids of 0/1/16/32 bytes x permission words; Algorithm 2.B over random passwords 0-127 bytes with and without the 48-byte U input. Non-trivial: non-ASCII password or non-empty data; distinct by input tuple",
+    assumptions=["R<=4 passwords are compared per Algorithm 2 (PDFDocEncoding); passwords PDFDocEncoding cannot represent are skipped for R<=4; R5/R6 passwords per SASLprep + UTF-8 truncated to 127 bytes"],
+    floors={"quick": {"evaluations": 5000, "distinct": 3000}, "thorough": {"evaluations": 300000, "distinct": 150000}},
+    level_text="Sampled inputs over every length class and password class with an exact reference value per call.",
+    level_note="Trusted base: pyref/crypto.py, Python hashlib, OpenSSL 3 libcrypto.",
+)
